@@ -189,6 +189,22 @@ impl<W: Write> Drv<W> {
                          "res": "done", "vg": 0}));
     }
 
+    /// record_entry(key, generation).value(): the lookup update_ttl / persist take the value from
+    fn peek(&mut self, k: u32, g: u32) {
+        let key = self.key(k).clone();
+        let a = self.arc(g);
+        let r = self.cache.verif_record_entry_value(&key, &a);
+        self.calls += 1;
+        match r {
+            Some(v) if v.len() >= HEADER => {
+                let vg = u32::from_le_bytes(v[4..8].try_into().unwrap());
+                self.emit(json!({"op": "peek", "k": k, "g": g, "res": "hit", "vg": vg, "vlen": v.len()}));
+            }
+            Some(v) => self.emit(json!({"op": "peek", "k": k, "g": g, "res": "hit", "vg": -1, "vlen": v.len()})),
+            None => self.emit(json!({"op": "peek", "k": k, "g": g, "res": "miss", "vg": 0})),
+        }
+    }
+
     fn get(&mut self, k: u32, g: u32) -> bool {
         let key = self.key(k).clone();
         let r = if g == 0 {
@@ -313,6 +329,7 @@ pub fn main(args: &[String]) -> i32 {
                     d.get(u(&v, "k") as u32, g);
                 }
                 "remove" => d.remove(u(&v, "k") as u32, g),
+                "peek" => d.peek(u(&v, "k") as u32, g),
                 "evict" => d.evict(),
                 "clear" => d.clear(),
                 "setwm" => d.setwm(u(&v, "high") as usize, u(&v, "low") as usize),
@@ -395,7 +412,7 @@ pub fn main(args: &[String]) -> i32 {
                 d.insert(k, g, vlen);
             } else if r < 64 {
                 let g = pick_gen(&mut rng, &us);
-                d.get(k, g);
+                if g != 0 && rng.random_range(0..4) == 0 { d.peek(k, g); } else { d.get(k, g); }
             } else if r < 71 {
                 let g = pick_gen(&mut rng, &us);
                 d.remove(k, g);
